@@ -192,26 +192,30 @@ Fixpoint doc_open (vs : list lview) : string :=
            end
   end.
 
-(* the upward walk of _get_comment_ending_at_line; input: the lines above, nearest first, WITHOUT line 0 *)
-Fixpoint walk_up (vs : list lview) : list lview :=
+(* the upward walk of _get_comment_ending_at_line; input: the lines above, nearest first, WITHOUT line 0.
+   stop_other (Gen: FIX_WALK): the walk also ends at a line that is neither empty nor a comment *)
+Definition walk_stop (stop_other : bool) (v : lview) : bool :=
+  v_isdef v || v_quote v || (stop_other && negb (v_empty v || v_iscomment v)).
+
+Fixpoint walk_up (stop_other : bool) (vs : list lview) : list lview :=
   match vs with
   | [] => []
-  | v :: r => if v_isdef v || v_quote v then [] else v :: walk_up r
+  | v :: r => if walk_stop stop_other v then [] else v :: walk_up stop_other r
   end.
 
 (* above_rev: all the lines above the field, nearest first (its last element is line 0, never examined) *)
-Definition comment_above (above_rev : list lview) : string :=
-  strip (join_nl (map v_comment (filter (fun v => negb (v_empty v)) (rev (walk_up (removelast above_rev)))))).
+Definition comment_above (stop_other : bool) (above_rev : list lview) : string :=
+  strip (join_nl (map v_comment (filter (fun v => negb (v_empty v)) (rev (walk_up stop_other (removelast above_rev)))))).
 
 Definition defines (f : string) (v : lview) : bool :=
   v_isdef v && match v_defname v with Some n => String.eqb n f | None => false end.
 
 (* the loop of _get_attribute_docstring: first field-definition line that defines f *)
-Fixpoint find_field (f : string) (above_rev vs : list lview) : option (string * string * string) :=
+Fixpoint find_field (stop_other : bool) (f : string) (above_rev vs : list lview) : option (string * string * string) :=
   match vs with
   | [] => None
-  | v :: r => if defines f v then Some (comment_above above_rev, v_comment v, doc_open r)
-              else find_field f (v :: above_rev) r
+  | v :: r => if defines f v then Some (comment_above stop_other above_rev, v_comment v, doc_open r)
+              else find_field stop_other f (v :: above_rev) r
   end.
 
 (* ---------- source text -> code_lines ---------- *)
@@ -245,6 +249,8 @@ Fixpoint last_assoc (f : string) (l : list (string * string)) (cur : string) : s
 Section Class.
   Variables HASH COLON EQUALS : ascii.
   Variables TRIPLE_S TRIPLE_D : string.
+  Variable STOP_OTHER : bool.     (* Gen FIX_WALK: the comment walk stops at code lines *)
+  Variable ENTRY_ALONE : bool.    (* Gen FIX_ENTRY: a class that only documents the field in its docstring still answers *)
 
   Definition code_lines (k : klass) : option (list string) :=
     match k_src k with
@@ -261,16 +267,17 @@ Section Class.
     end.
 
   Definition scan_lines (lines : list string) (f : string) : option (string * string * string) :=
-    find_field f [] (map (view HASH COLON EQUALS TRIPLE_S TRIPLE_D) lines).
+    find_field STOP_OTHER f [] (map (view HASH COLON EQUALS TRIPLE_S TRIPLE_D) lines).
 
   (* _get_attribute_docstring(cls, f) *)
   Definition scan_class (k : klass) (f : string) : option parts :=
     match code_lines k with
     | None => None
     | Some lines =>
+        let entry := last_assoc f (k_args k) "" in
         match scan_lines lines f with
-        | None => None
-        | Some (above, inline, below) => Some (mkparts above inline below (last_assoc f (k_args k) ""))
+        | None => if ENTRY_ALONE && str_nonempty entry then Some (mkparts "" "" "" entry) else None
+        | Some (above, inline, below) => Some (mkparts above inline below entry)
         end
     end.
 End Class.
@@ -278,6 +285,7 @@ End Class.
 (* ---------- get_attribute_docstring: accumulation along the MRO, with the lru_cache ---------- *)
 Section Mro.
   Variable ACC : list part.                         (* Gen: the parts updated in the `else:` branch *)
+  Variable COPY : bool.                             (* Gen FIX_ALIAS: `created` is a copy of the cached object *)
   Definition part_in (p : part) (l : list part) : bool := existsb (part_eqb p) l.
 
   (* created.p = created.p or attribute.p, for each accumulated p *)
@@ -317,7 +325,7 @@ Section Mro.
       | None => let v := scan k in (v, cache_set st k v)
       end.
 
-    (* the for loop; `created` is the cached object of class k0, updated in place *)
+    (* the for loop; `created` is the cached object of class k0, updated in place - unless it is a COPY *)
     Fixpoint acc_loop (mro : list string) (created : option (string * parts)) (st : cache)
       : option (string * parts) * cache :=
       match mro with
@@ -328,7 +336,8 @@ Section Mro.
           | None => acc_loop r created st1
           | Some d => match created with
                       | None => acc_loop r (Some (k, d)) st1
-                      | Some (k0, c) => let c' := merge c d in acc_loop r (Some (k0, c')) (cache_set st1 k0 (Some c'))
+                      | Some (k0, c) => let c' := merge c d in
+                                        acc_loop r (Some (k0, c')) (if COPY then st1 else cache_set st1 k0 (Some c'))
                       end
           end
       end.
